@@ -207,8 +207,11 @@ def run_chunks(pair, rng, variant, opts):
     tr = Trace(pair, f"chunks-{variant}")
     tr.chunk_results = []
     nusers = rng.range(2, 5)
-    su = Setup(tr, variant, nrw=rng.range(1, 5), minc=rng.range(1, 2), avail=rng.range(1, 3),
-               claim=rng.pick([20, 30]))
+    # guarantee-heavy configuration: every participant holds guarantees whose thresholds are met and the
+    # base lottery is small, so the distribution step has real work for every holder
+    heavy = variant in GUAR and rng.chance(1, 2)
+    su = Setup(tr, variant, nrw=(2 * nusers + rng.range(0, 1)) if heavy else rng.range(1, 5),
+               minc=rng.range(1, 2), avail=rng.range(1, 3), claim=rng.pick([20, 30]))
     users = list(range(10, 10 + nusers))
     if not su.deploy(users):
         return tr
@@ -221,6 +224,13 @@ def run_chunks(pair, rng, variant, opts):
     tot = 0
     for u in users:
         a, n = life.alloc_entry(u)
+        if heavy:
+            if variant in V1ALLOC:
+                a, n = [u, su.minc, 1, 1], su.minc + 1
+            else:
+                g = rng.range(1, 2)
+                a, n = [u, 3, 1, g, g], 3
+            life.alloc[u] = n
         if n == 0:
             # keep every participant non-empty here: zero-size ranges are exercised by `life`
             if variant in V1ALLOC:
@@ -245,7 +255,7 @@ def run_chunks(pair, rng, variant, opts):
     tr.round = su.conf
     confirmed = []
     for u in users:
-        n = rng.range(0, life.alloc[u])
+        n = life.alloc[u] if heavy else rng.range(0, life.alloc[u])
         if n > 0:
             r = tr.call(u, "confirm", [n], **su.pay(su.price * n))
             if r["st"] == "ok":
@@ -259,6 +269,7 @@ def run_chunks(pair, rng, variant, opts):
     callers = [OWNER, STRANGER] + users
     steps = ["filter", "select"] + ([su.extra_ep()] if su.extra_ep() else [])
     for ep in steps:
+        tr.dump()
         tr.send("snap pre")
         seedsA = [rng.seed32(), rng.seed32()]
         round0 = tr.round
@@ -282,6 +293,7 @@ def run_chunks(pair, rng, variant, opts):
         for sched in scheds:
             tr.send("restore pre")
             tr.round = round0
+            tr.dump()                      # gives the monitors the state the chunked run starts from
             ok, _ = drive_chunked(tr, rng, ep, seedsA, sched, callers)
             s2 = tr.send("storage")
             tr.chunk_results.append((ep, sched, ok, ref == s2))
